@@ -481,7 +481,7 @@ func testdataFiles() [][]byte {
 }
 
 func genC12(c *Ctx) {
-	n := c.Scale(2000, 200000)
+	n := c.Scale(2000, 120000) // thorough: 200k games took 37 min wall on a loaded 16-core box (16.3M ops); 120k keeps it under 30
 	for k := 0; k < n; k++ {
 		emitGame(c, randomGame(c))
 		if k%4 == 0 {
